@@ -96,6 +96,10 @@ def run(ctx: Ctx):
     ctx.guarded(sign_nonzero, ctx)
     res.rule("LOST-REBIND", "a transform that can return its operand itself (in-place flavour): on every branch-consistent path from unpacking the operand's components to `return <operand>`, no component name is re-bound without being stored back into the operand -- a re-bound local is a new object the returned operand never sees", floor=1)
     ctx.guarded(lost_rebind, ctx)
+    from .c20 import perm_space
+
+    res.rule("PERM-SPACE", "aligned component order: index-space typing of the matching permutation (shared with C20) -- cp_permute_factors picks the columns of the tensor to permute with a permutation whose values refer to that tensor and whose positions are the reference's components", floor=3)
+    ctx.guarded(perm_space, ctx)
 
 
 def degree_conserved(ctx: Ctx):
